@@ -176,6 +176,7 @@ fn test_editor_on(c: &EditorCase, ctx: &mut CaseCtx) -> Result<(), String> {
         let on_last = last_line_no_nl && d.start.0 as usize == n_lines - 1 && n_lines > 1;
         ctx.class_if(astral_before, "astral_before_lint_on_line");
         ctx.class_if(on_later_line, "lint_on_later_line");
+        ctx.class_if(!on_later_line && text.first() == Some(&'\u{feff}'), "leading_byte_order_mark_with_lint_on_first_line");
         ctx.class_if(on_last, "lint_on_last_line_without_newline");
         nt |= astral_before || (n_lines >= 2 && on_later_line) || on_last;
     }
@@ -413,9 +414,10 @@ fn editor_case() -> BoxedStrategy<EditorCase> {
             "html" => editor_text().prop_map(|t| format!("<p>{t}</p>")).boxed(),
             _ => editor_text(),
         };
-        (Just(lang), text)
+        // one case in eight starts with U+FEFF: one UTF-16 unit at line 0, column 0 of what the client sent
+        (Just(lang), text, 0u8..8)
     })
-    .prop_map(|(lang, text)| EditorCase { lang, text })
+    .prop_map(|(lang, text, bom)| EditorCase { lang, text: if bom == 0 { format!("\u{feff}{text}") } else { text } })
     .boxed()
 }
 
@@ -429,6 +431,7 @@ pub fn run(run: &mut Run) {
     run.require_class("editor_round_trip", "astral_before_lint_on_line", (n / 20) as u64);
     run.require_class("editor_round_trip", "lint_on_last_line_without_newline", (n / 20) as u64);
     run.require_class("editor_round_trip", "crlf", (n / 10) as u64);
+    run.require_class("editor_round_trip", "leading_byte_order_mark_with_lint_on_first_line", (n / 40) as u64);
 }
 
 pub fn replay(_check: &str, case: Value, _run: &mut Run) -> Result<(), String> {
